@@ -787,16 +787,17 @@ func poolHygiene(c *core.Ctx) {
 		}
 		var probs []string
 		n := 0
+		getCounter := newCallCounter(p, info, func(call *ast.CallExpr) bool {
+			f := astx.CalleeFunc(info, call)
+			return f != nil && strings.HasPrefix(f.Name(), "get") && helpers["compressionPool."+f.Name()]
+		})
+		putCounter := newCallCounter(p, info, func(call *ast.CallExpr) bool {
+			f := astx.CalleeFunc(info, call)
+			return f != nil && strings.HasPrefix(f.Name(), "put") && helpers["compressionPool."+f.Name()]
+		})
 		astx.ForEachExit(info, fd.Body, func(s *astx.State, kind astx.ExitKind, ret *ast.ReturnStmt) {
-			gets := s.CountCalls(func(call *ast.CallExpr) bool {
-				f := astx.CalleeFunc(info, call)
-				return f != nil && strings.HasPrefix(f.Name(), "get") && helpers["compressionPool."+f.Name()]
-			})
-			isPut := func(call *ast.CallExpr) bool {
-				f := astx.CalleeFunc(info, call)
-				return f != nil && strings.HasPrefix(f.Name(), "put") && helpers["compressionPool."+f.Name()]
-			}
-			puts := s.CountCalls(isPut) + s.DeferredCalls(isPut)
+			getsLo, getsHi := getCounter.ofState(s, ret, 2)
+			putsLo, putsHi := putCounter.ofState(s, ret, 2)
 			getFailed := false
 			// the path returned right after a failed get (err != nil of the get)
 			for _, st := range s.Steps {
@@ -807,7 +808,7 @@ func poolHygiene(c *core.Ctx) {
 							if s.HasFact(func(e ast.Expr, pol bool) bool {
 								l, op, r, ok := astx.CompareOp(e)
 								return ok && astx.IsNil(info, r) && astx.ObjOf(info, l) == errObj && (op == token.NEQ) == pol
-							}) && puts == 0 {
+							}) && putsHi == 0 {
 								getFailed = true
 							}
 						}
@@ -815,11 +816,11 @@ func poolHygiene(c *core.Ctx) {
 				}
 			}
 			n++
-			if gets != 1 {
-				probs = append(probs, fmt.Sprintf("%d get calls on one path", gets))
+			if getsLo != 1 || getsHi != 1 {
+				probs = append(probs, fmt.Sprintf("%d..%d get calls on one path", getsLo, getsHi))
 			}
-			if !getFailed && puts != 1 {
-				probs = append(probs, fmt.Sprintf("a path after a successful get passes %d put calls (the object leaks or is pooled twice)", puts))
+			if !getFailed && (putsLo != 1 || putsHi != 1) {
+				probs = append(probs, fmt.Sprintf("a path after a successful get passes %d..%d put calls, helpers included (the object leaks or is pooled twice)", putsLo, putsHi))
 			}
 		})
 		c.Check(len(probs) == 0 && n > 0, "pairing/"+name, fd.Pos(), "%d exit(s): one get, and exactly one put unless the get itself failed%s", n, joinProblems(probs))
@@ -869,12 +870,31 @@ func preferenceOrder(c *core.Ctx) {
 		return
 	}
 	loops := loopsIn(fd.Body)
+	param := info.Defs[fd.Type.Params.List[1].Names[0]]
+	outer := fd
+	if len(loops) == 0 {
+		// the loop may live in a helper that receives the registration list
+		for _, call := range astx.Calls(fd.Body) {
+			f := astx.CalleeFunc(info, call)
+			if f == nil || p.Decl(f) == nil || p.PkgOf(p.Decl(f)) != p.Connect {
+				continue
+			}
+			for i, a := range call.Args {
+				if astx.ObjOf(info, a) == param {
+					helper := p.Decl(f)
+					if ls := loopsIn(helper.Body); len(ls) == 1 {
+						fd, loops = helper, ls
+						param = paramObjAt(info, helper, i)
+					}
+				}
+			}
+		}
+	}
 	if len(loops) != 1 {
-		c.Undecided("loop", fd.Pos(), "expected one loop, found %d", len(loops))
+		c.Undecided("loop", fd.Pos(), "expected one loop over the registration list, found %d", len(loops))
 		return
 	}
 	dir, slice, isElem, body := loopOver(info, loops[0])
-	param := info.Defs[fd.Type.Params.List[1].Names[0]]
 	c.Check(dir == dirDesc && astx.ObjOf(info, slice) == param, "direction", loops[0].Pos(), "names are taken from the registration list %s (last registered first)", dir)
 	// append(names, elem) guarded by !seen
 	var app *ast.AssignStmt
@@ -906,7 +926,7 @@ func preferenceOrder(c *core.Ctx) {
 	}
 	// the joined list is what CommaSeparatedNames returns
 	joined := false
-	for _, call := range astx.Calls(fd.Body) {
+	for _, call := range astx.Calls(outer.Body) {
 		if astx.IsPkgFunc(astx.Callee(info, call), "strings", "Join") {
 			if s, ok := astx.ConstString(info, call.Args[1]); ok && s == "," {
 				joined = true
@@ -1293,4 +1313,17 @@ func limitWiring(c *core.Ctx) {
 		}
 	}
 	c.Floor("Decompress call sites", dn, 2)
+}
+
+func paramObjAt(info *types.Info, fd *ast.FuncDecl, idx int) types.Object {
+	i := 0
+	for _, f := range fd.Type.Params.List {
+		for _, n := range f.Names {
+			if i == idx {
+				return info.Defs[n]
+			}
+			i++
+		}
+	}
+	return nil
 }
